@@ -47,7 +47,25 @@ def through_cli(c):
             got.get("max_block_size", "missing"), got.get("block_counter_wrap_value", "missing"))
 
 
+RAISED = (-9, -9, -9, -9, -9)
+
+
+def documented(c):
+    """within the ranges the TftpServer docstring gives (default_timeout is documented as silently clamped, so any
+    number is fine there); outside them a constructor that refuses the value breaks no property"""
+    w = c[4]
+    return (1 <= c[1] <= 255 and c[2] >= 1 and 512 <= c[3] <= 65464
+            and (w is None or (type(w) is int and w in (0, 1))))
+
+
 def observe(c, cli=True):
+    try:
+        return _observe(c, cli)
+    except Exception as ex:       # a constructor (or the wiring) that raises is an observation, not a crash
+        return ("raised", type(ex).__name__, str(ex)[:80])
+
+
+def _observe(c, cli=True):
     if cli:
         k = through_cli(c)
         if "missing" in k:
@@ -105,9 +123,14 @@ def cases(tier, rng):
 def replay(case):
     c = tuple(case["config"])
     o = observe(c)
+    if o[0] == "raised":
+        out, = common.run_model("c01cfg", [sx([enc(c), list(RAISED)])])
+        r = unsx(out)
+        return (list(o), r[0], names(r[1]), ["C01:documented_configuration_refused:" + o[1]])
     out, = common.run_model("c01cfg", [sx([enc(c), enc(o)])])
     r = unsx(out)
     return (enc(o), r[0], names(r[1]), names(r[2]))
+
 
 
 def cfg_checks(tier, rng, report, prefix=""):
@@ -115,9 +138,16 @@ def cfg_checks(tier, rng, report, prefix=""):
     stats = {"server_config_cases": 0, "server_config_disagreements": 0, "server_config_impl_failures": 0}
     failing = []
     cs = list(cases(tier, rng))
-    obs = [observe(c) for c in cs]
+    obs0 = [observe(c) for c in cs]
+    # refused outside the documented ranges: no property says such a configuration must be accepted
+    stats["server_config_refused_outside_documented_ranges"] = sum(
+        1 for c, o in zip(cs, obs0) if o[0] == "raised" and not documented(c))
+    keep = [(c, o) for c, o in zip(cs, obs0) if not (o[0] == "raised" and not documented(c))]
+    cs = [c for c, _ in keep]
+    raised = {i: o for i, (_, o) in enumerate(keep) if o[0] == "raised"}
+    obs = [RAISED if o[0] == "raised" else o for _, o in keep]
     outs = common.run_model("c01cfg", [sx([enc(c), enc(o)]) for c, o in zip(cs, obs)])
-    for c, o, out in zip(cs, obs, outs):
+    for i, (c, o, out) in enumerate(zip(cs, obs, outs)):
         if out.startswith("!") or out.startswith("#"):
             raise RuntimeError(f"c01cfg: driver rejected case {c!r} -> {out[:100]}")
         r = unsx(out)
@@ -126,13 +156,15 @@ def cfg_checks(tier, rng, report, prefix=""):
         if fm:
             raise RuntimeError(f"c01cfg: the model fails its own checker on {c!r}: {fm}")
         # wrap: None must stay None and a number must stay that number (bool is a number in Python: False == 0)
-        same_wrap = (o[4] is None) == (c[4] is None)
+        same_wrap = (o[4] is None) == (c[4] is None) or i in raised
         dis = enc(o) != m or not same_wrap
+        if i in raised:
+            fi = ["C01:documented_configuration_refused:" + raised[i][1]]
         if dis:
             stats["server_config_disagreements"] += 1
         if fi:
             stats["server_config_impl_failures"] += 1
-        if (fi or dis) and len(failing) < 3:
+        if (fi or dis) and (len(failing) < 3 or documented(c)) and len(failing) < 40:
             failing.append(({"_extra": True, "part": "server-config", "config": [c[0], c[1], c[2], c[3], c[4]]},
                             fi or ["C01:server_config_correspondence"], enc(o), m))
     report["evaluations"] += stats["server_config_cases"]
@@ -140,4 +172,6 @@ def cfg_checks(tier, rng, report, prefix=""):
     report["impl_failures"] += stats["server_config_impl_failures"]
     stats["server_config_wall_s"] = round(time.time() - t0, 1)
     report["extra"].update(stats)
+    # prefer a configuration within the documented ranges as the reported input
+    failing.sort(key=lambda f: 0 if documented(tuple(f[0]["config"])) else 1)
     report.setdefault("extra_failing", []).extend(failing[:2])
